@@ -772,6 +772,24 @@ type gen struct {
 	v6      bool
 	blocks  []IPBJ // ipBlock pool of this trace
 	nsNames []string
+	cl      *ClusterJ
+}
+
+func (g *gen) somePodLabels(ns string) LabelMap {
+	var c []LabelMap
+	for _, p := range g.cl.Pods {
+		if ns == "" || p.Ns == ns {
+			c = append(c, p.Labels)
+		}
+	}
+	if len(c) == 0 {
+		return nil
+	}
+	return c[g.r.Intn(len(c))]
+}
+
+func (g *gen) someNsLabels() LabelMap {
+	return g.cl.Namespaces[g.r.Intn(len(g.cl.Namespaces))].Labels
 }
 
 func sp(s string) *string { return &s }
@@ -804,12 +822,24 @@ func (g *gen) labels(keys, vals []string, p float64) LabelMap {
 	return m
 }
 
-func (g *gen) selector(keys, vals []string) SelJ {
+// selector draws a label selector over (keys, vals).  `target` (may be nil) biases the draw towards
+// selectors that match that label map - otherwise most random selectors select nothing and the case is
+// vacuous.  This is generation strategy only; nothing here is used to judge.
+func (g *gen) selector(keys, vals []string, target LabelMap) SelJ {
 	s := SelJ{ML: LabelMap{}, ME: []ReqJ{}}
-	if g.r.Intn(4) == 0 {
+	if g.r.Intn(5) == 0 {
 		return s // empty selector: everything
 	}
-	vpick := func(k string) string {
+	biased := target != nil && g.r.Intn(5) > 0
+	var present, absent []string
+	for _, k := range keys {
+		if _, ok := target[k]; ok {
+			present = append(present, k)
+		} else {
+			absent = append(absent, k)
+		}
+	}
+	anyVal := func(k string) string {
 		if k == "kubernetes.io/metadata.name" {
 			return g.pick(g.nsNames)
 		}
@@ -818,32 +848,61 @@ func (g *gen) selector(keys, vals []string) SelJ {
 		}
 		return g.pick(vals)
 	}
+	otherVal := func(k string) string {
+		for i := 0; i < 8; i++ {
+			if v := anyVal(k); v != target[k] {
+				return v
+			}
+		}
+		return "zz"
+	}
 	nml := []int{0, 1, 1, 2}[g.r.Intn(4)]
 	for i := 0; i < nml; i++ {
-		k := g.pick(keys)
-		s.ML[k] = vpick(k)
+		if biased && len(present) > 0 {
+			k := g.pick(present)
+			s.ML[k] = target[k]
+		} else {
+			k := g.pick(keys)
+			s.ML[k] = anyVal(k)
+		}
 	}
 	nme := []int{0, 0, 1, 1, 2}[g.r.Intn(5)]
 	for i := 0; i < nme; i++ {
+		op := g.r.Intn(4)
 		k := g.pick(keys)
-		switch g.r.Intn(4) {
-		case 0:
-			vs := []string{vpick(k)}
-			if g.r.Intn(2) == 0 {
-				vs = append(vs, vpick(k))
+		var vs []string
+		if biased {
+			switch {
+			case op == 0 && len(present) > 0: // In, containing the target's value
+				k = g.pick(present)
+				vs = []string{target[k]}
+				if g.r.Intn(2) == 0 {
+					vs = append(vs, otherVal(k))
+					g.r.Shuffle(len(vs), func(a, b int) { vs[a], vs[b] = vs[b], vs[a] })
+				}
+			case op == 1: // NotIn, other values (or a key the target lacks)
+				vs = []string{otherVal(k)}
+				if g.r.Intn(2) == 0 {
+					vs = append(vs, otherVal(k))
+				}
+			case op == 2 && len(present) > 0:
+				k = g.pick(present)
+			case op == 3 && len(absent) > 0:
+				k = g.pick(absent)
+			default:
+				op = 1
+				vs = []string{otherVal(k)}
 			}
-			s.ME = append(s.ME, ReqJ{K: k, Op: "In", Vs: vs})
-		case 1:
-			vs := []string{vpick(k)}
+		} else if op < 2 {
+			vs = []string{anyVal(k)}
 			if g.r.Intn(2) == 0 {
-				vs = append(vs, vpick(k))
+				vs = append(vs, anyVal(k))
 			}
-			s.ME = append(s.ME, ReqJ{K: k, Op: "NotIn", Vs: vs})
-		case 2:
-			s.ME = append(s.ME, ReqJ{K: k, Op: "Exists", Vs: []string{}})
-		case 3:
-			s.ME = append(s.ME, ReqJ{K: k, Op: "DoesNotExist", Vs: []string{}})
 		}
+		if vs == nil {
+			vs = []string{}
+		}
+		s.ME = append(s.ME, ReqJ{K: k, Op: []string{"In", "NotIn", "Exists", "DoesNotExist"}[op], Vs: vs})
 	}
 	return s
 }
@@ -916,17 +975,17 @@ func (g *gen) ipBlock() IPBJ {
 	return blk
 }
 
-func (g *gen) peer() PeerJ {
+func (g *gen) peer(ownNs string) PeerJ {
 	switch g.r.Intn(8) {
 	case 0, 1:
-		s := g.selector(podKeys, podVals)
+		s := g.selector(podKeys, podVals, g.somePodLabels(ownNs))
 		return PeerJ{PodSel: &s}
 	case 2, 3:
-		s := g.selector(nsKeys, nsVals)
+		s := g.selector(nsKeys, nsVals, g.someNsLabels())
 		return PeerJ{NsSel: &s}
 	case 4, 5:
-		s := g.selector(podKeys, podVals)
-		n := g.selector(nsKeys, nsVals)
+		s := g.selector(podKeys, podVals, g.somePodLabels(""))
+		n := g.selector(nsKeys, nsVals, g.someNsLabels())
 		return PeerJ{PodSel: &s, NsSel: &n}
 	default:
 		b := g.blocks[g.r.Intn(len(g.blocks))]
@@ -954,10 +1013,10 @@ func (g *gen) port() PortJ {
 	return p
 }
 
-func (g *gen) rule() RuleJ {
+func (g *gen) rule(ownNs string) RuleJ {
 	r := RuleJ{Peers: []PeerJ{}, Ports: []PortJ{}}
 	for i, n := 0, []int{0, 1, 1, 2, 3}[g.r.Intn(5)]; i < n; i++ {
-		r.Peers = append(r.Peers, g.peer())
+		r.Peers = append(r.Peers, g.peer(ownNs))
 	}
 	for i, n := 0, []int{0, 1, 1, 2, 3}[g.r.Intn(5)]; i < n; i++ {
 		r.Ports = append(r.Ports, g.port())
@@ -966,7 +1025,11 @@ func (g *gen) rule() RuleJ {
 }
 
 func (g *gen) policy(name string, undefaulted bool) NPJ {
-	np := NPJ{Name: name, Ns: g.pick(g.nsNames), PodSel: g.selector(podKeys, podVals), Types: []string{}, Ingress: []RuleJ{}, Egress: []RuleJ{}}
+	ns := g.cl.Pods[g.r.Intn(len(g.cl.Pods))].Ns // a namespace that has pods
+	if g.r.Intn(10) == 0 {
+		ns = g.pick(g.nsNames)
+	}
+	np := NPJ{Name: name, Ns: ns, PodSel: g.selector(podKeys, podVals, g.somePodLabels(ns)), Types: []string{}, Ingress: []RuleJ{}, Egress: []RuleJ{}}
 	switch g.r.Intn(7) {
 	case 0:
 		// policyTypes absent
@@ -980,13 +1043,13 @@ func (g *gen) policy(name string, undefaulted bool) NPJ {
 		np.Types = []string{"Egress", "Ingress"}
 	}
 	for i, n := 0, []int{0, 1, 1, 2}[g.r.Intn(4)]; i < n; i++ {
-		np.Ingress = append(np.Ingress, g.rule())
+		np.Ingress = append(np.Ingress, g.rule(ns))
 	}
 	// An object read from the API server always has policyTypes filled in (defaulting), so a policy without
 	// policyTypes but with egress rules is only generated on request (VERIF_C29_UNDEFAULTED=1, see notes/C29.md).
 	if len(np.Types) > 0 || undefaulted {
 		for i, n := 0, []int{0, 1, 1, 2}[g.r.Intn(4)]; i < n; i++ {
-			np.Egress = append(np.Egress, g.rule())
+			np.Egress = append(np.Egress, g.rule(ns))
 		}
 	}
 	return np
@@ -1169,6 +1232,7 @@ func main() {
 			g.blocks = append(g.blocks, g.ipBlock())
 		}
 		c := g.cluster()
+		g.cl = &c
 		lg.Reset(t, w.convertCluster(&c))
 		for k := 0; k < casesPer; k++ {
 			nps := []NPJ{g.policy("np1", undefaulted)}
